@@ -83,6 +83,16 @@ def cmdSecure (j : Json) : Except String Json := do
   | .ok fs' => return Json.mkObj [("panic", false), ("leaks", toJson (Secure.secretsF fs')), ("handled", Secure.handledF fs),
       ("secrets", toJson (Secure.secretsF fs))]
 
+/-- the recovery repair of one object (function-level differential, hook coercion.VerifFix*) -/
+def cmdFix (j : Json) : Except String Json := do
+  let kind ← j.getObjValAs? String "kind"
+  let now ← j.getObjValAs? Nat "now"
+  match kind with
+  | "action" => let a : Action ← j.getObjValAs? Action "obj"; return toJson (Fix.fixAction a)
+  | "seq" => let q : Sequence ← j.getObjValAs? Sequence "obj"; return toJson (Fix.fixSeqFull now q)
+  | "checks" => let c : Checks ← j.getObjValAs? Checks "obj"; return toJson (Fix.fixChecks c)
+  | _ => throw s!"unknown kind {kind}"
+
 def dispatch (j : Json) : Except String Json := do
   let cmd ← j.getObjValAs? String "cmd"
   match cmd with
@@ -94,6 +104,7 @@ def dispatch (j : Json) : Except String Json := do
   | "startup" => cmdStartup j
   | "search" => cmdSearch j
   | "secure" => cmdSecure j
+  | "fix" => cmdFix j
   | "ping" => return "pong"
   | _ => throw s!"unknown cmd {cmd}"
 
